@@ -129,6 +129,56 @@ func verifH_C10_offline() {
 	verifReach("offline")
 }
 
+// L10.c: the read routine gives up the connection (protocol violation,
+// Persistence error, failed discard) while another goroutine is stalled inside
+// a Write that has no deadline (PauseTimeout 0, a peer that stopped reading)
+// and holds the write token. Only closing the connection ends that write:
+// toOffline must return, the writer must be released with ErrSubmit, and the
+// client must be ready to redial.
+func verifH_C10_stalledwrite() {
+	store := &verifStore{}
+	c := verifNewClient(store, &Config{})
+	conn := &verifInConn{}
+	conn.stall = make(chan struct{})
+	verifGoOnline(c, &conn.verifConn)
+	c.readConn = conn
+	var werr error
+	returned := false
+	kind := verifChoose("writer", 2)
+	go func() {
+		switch kind {
+		case 0:
+			werr = c.Publish(nil, []byte{'m'}, "t")
+		case 1:
+			werr = c.Subscribe(nil, "f")
+		case 2:
+			var ex <-chan error
+			ex, werr = c.PublishAtLeastOnce([]byte{'m'}, "t")
+			if werr == nil {
+				werr = <-ex
+			}
+		}
+		returned = true
+	}()
+	verifQuiesce() // the writer sits in Write, holding the token
+	verifAssert(!returned, "harness: the writer is not stalled")
+	done := false
+	go func() {
+		c.toOffline()
+		done = true
+	}()
+	verifQuiesce()
+	verifAssert(done, "C10: the read routine waits for ever for the write token of a goroutine whose write only its own Close can end")
+	verifAssert(returned, "C10/C11: a writer stalled on the abandoned connection is never released")
+	verifAssert(conn.closed, "C10: the abandoned connection is left open")
+	if returned {
+		verifAssert(werr != nil, "C08: a write interrupted by the connection reset reports success")
+	}
+	verifAssert(verifIsOffline(c), "C10: the client is not offline after the read routine gave up the connection")
+	verifNextConnectionWorks(c, store, "C10")
+	verifReach("end")
+}
+
 // L10.d: ReadBackoff durations.
 func verifH_C10_backoff() {
 	min := time.Duration(verifInt("min"))
